@@ -100,6 +100,34 @@ def call(rng, name, op, xa, xb):
     return f'(({xa}) {op} ({xb}))'
 
 
+CORE = [0, 1, -1, 2, -2, 3, -7, 2 ** 32, 2 ** 63 - 1, -(2 ** 63 - 1), 2 ** 63, -(2 ** 63), 2 ** 63 + 1, -(2 ** 63 + 1),
+        2 ** 64, -(2 ** 64), 2 ** 64 + 1, -(2 ** 64 + 1), 2 ** 127, -(2 ** 127), 2 ** 127 + 1, -(2 ** 127 + 1)]
+
+
+def boundary_route(rng, n):
+    """routes that reach the boundary values through the arms that normalise (neg of a long, long +- short ...)"""
+    opts = [route(rng, n)]
+    if n != 0:
+        opts.append(f'(-({lit(-n)}))' if abs(n) < 2 ** 127 else f'(-("{-n}".to_int()))')
+    opts.append(f'({lit(n + 1) if abs(n + 1) < 2 ** 127 else chr(34) + str(n + 1) + chr(34) + ".to_int()"} - 1)')
+    opts.append(f'({lit(n - 1) if abs(n - 1) < 2 ** 127 else chr(34) + str(n - 1) + chr(34) + ".to_int()"} + 1)')
+    return rng.choice(opts)
+
+
+def probe(x, e):
+    return (f'let r = {x}; let e = "{e}".to_int(); '
+            f'to_str(r) + "|" + to_str(r == e) + "," + to_str(hash(r) == hash(e)) + "," + to_str(cmp(r, e))')
+
+
+def exact_double(n):
+    if n == 0:
+        return True
+    m = abs(n)
+    while m % 2 == 0:
+        m //= 2
+    return m < 2 ** 53 and abs(n) < 2 ** 1000
+
+
 class C14(PropertyCheck):
     id = 'C14'
     imports = 'From Coq Require Import ZArith String List.\nFrom Xr Require Import Base.Res Base.Show Int.Lbi Int.IntFns Int.IntShow.\nImport ListNotations.'
@@ -115,7 +143,7 @@ class C14(PropertyCheck):
             'result is outside the i64 range, or the case is an error/edge case')
 
     def generate(self, rng, tier):
-        n = 700 if tier == 'quick' else 6000
+        n = 500 if tier == 'quick' else 6000
         cases = []
         seen = set()
 
@@ -126,6 +154,38 @@ class C14(PropertyCheck):
             seen.add(key)
             cases.append(Case(key, kind, body, coq, 'str', '', meta or {}, None, expect))
 
+        # ---- boundary grid: every unary op on every core value, binary ops on pairs of core values
+        grid = []
+        for a in CORE:
+            for name in ('neg', 'abs', 'sign', 'hash', 'float_rt'):
+                grid.append((name, a, None))
+        pairs = [(name, a, b) for name in BIN for a in CORE for b in CORE]
+        rng.shuffle(pairs)
+        grid += pairs if tier != 'quick' else pairs[:1400]
+        for name, a, b in grid:
+            if b is None:
+                xa = boundary_route(rng, a)
+                if name == 'neg':
+                    add_case('g/neg', probe(f'neg({xa})', -a), f'both (int_neg (L {coq_z(a)})) {coq_z(-a)}', f'{-a}|true,true,0', {'big': True})
+                elif name == 'abs':
+                    add_case('g/abs', probe(f'abs({xa})', abs(a)), f'both (x_abs (L {coq_z(a)})) {coq_z(abs(a))}', f'{abs(a)}|true,true,0', {'big': True})
+                elif name == 'sign':
+                    sg = (a > 0) - (a < 0)
+                    add_case('g/sign', probe(f'sign({xa})', sg), f'both (Val (x_sign (L {coq_z(a)}))) {coq_z(sg)}', f'{sg}|true,true,0', {'big': True})
+                elif name == 'hash':
+                    e = a if 0 <= a < 2 ** 64 else (a % 2 ** 64 if -2 ** 63 <= a < 0 else abs(a) % 2 ** 64)
+                    add_case('g/hash', probe(f'hash({xa})', e), f'both (Val (int_hash (L {coq_z(a)}))) {coq_z(e)}', f'{e}|true,true,0', {'big': True})
+                elif name == 'float_rt' and exact_double(a):
+                    fn = rng.choice(['floor', 'ceil', 'trunc'])
+                    add_case('g/float_rt', probe(f'{fn}(({xa}).to_float())', a), f'both (from_f64_exact {coq_z(a)}) {coq_z(a)}', f'{a}|true,true,0', {'big': True})
+                continue
+            cf, op, pf = BIN[name]
+            e = pf(a, b)
+            x = call(rng, name, op, boundary_route(rng, a), boundary_route(rng, b))
+            if e is None:
+                add_case('g/' + name, f'to_str({x})', f'rlbi ({cf} (L {coq_z(a)}) (L {coq_z(b)}))', None, {'big': True})
+            else:
+                add_case('g/' + name, probe(x, e), f'both ({cf} (L {coq_z(a)}) (L {coq_z(b)})) {coq_z(e)}', f'{e}|true,true,0', {'big': True})
         for _ in range(n):
             r = rng.random()
             if r < 0.55:
